@@ -34,7 +34,10 @@ PNG_COL = [({}, '#000', '#fff'), (dict(dark='darkblue'), 'darkblue', '#fff'), (d
            (dict(dark='antiquewhite', light=None), 'antiquewhite', None), (dict(dark=(240, 248, 255, 128), light=None), (240, 248, 255, 128), None),
            # float alpha values whose exact 0..255 image is not an integer (nearest-integer conversion expected)
            (dict(dark=(0, 0, 0, 0.1)), (0, 0, 0, 0.1), '#fff'), (dict(dark=(9, 8, 7, 0.75), light=(250, 251, 252, 0.95)), (9, 8, 7, 0.75), (250, 251, 252, 0.95)),
-           (dict(dark=(1, 2, 3, 0.3)), (1, 2, 3, 0.3), '#fff')]
+           (dict(dark=(1, 2, 3, 0.3)), (1, 2, 3, 0.3), '#fff'),
+           # opaque greys (R=G=B) other than black/white, alone and with the defaults
+           (dict(light='#eee'), '#000', '#eee'), (dict(dark='#333'), '#333', '#fff'), (dict(dark=(40, 40, 40), light=None), (40, 40, 40), None),
+           (dict(dark='gray', light='silver'), 'gray', 'silver'), (dict(light='yellow'), '#000', 'yellow')]
 GREY_ALIASES = [('gray', 'grey'), ('darkgray', 'darkgrey'), ('dimgray', 'dimgrey'), ('lightgray', 'lightgrey'), ('slategray', 'slategrey'),
                 ('darkslategray', 'darkslategrey'), ('lightslategray', 'lightslategrey'), ('aqua', 'cyan'), ('fuchsia', 'magenta')]
 COLORS = {
@@ -45,10 +48,13 @@ COLORS = {
             (dict(dark='white', light=None), 'white', None), (dict(dark='black', light='#fff'), '#000', '#fff'),
             (dict(dark=(0, 0, 0), light=(255, 255, 255)), '#000', '#fff'), (dict(dark='#fff', light='#fff'), '#fff', '#fff'),
             (dict(dark='#123', light=None), '#123', None), (dict(dark=(10, 20, 30), light=None), (10, 20, 30), None), (dict(dark='gray', light=None), 'gray', None),
-            (dict(dark=(10, 20, 30), light=(40, 50, 60)), (10, 20, 30), (40, 50, 60))],
-    'ppm': [({}, '#000', '#fff'), (dict(dark='red', light='tan'), 'red', 'tan'), (dict(dark='white', light='black'), 'white', 'black')],
+            (dict(dark=(10, 20, 30), light=(40, 50, 60)), (10, 20, 30), (40, 50, 60)),
+            (dict(light='yellow'), '#000', 'yellow'), (dict(light='#eee'), '#000', '#eee'), (dict(dark='#333'), '#333', '#fff'),
+            (dict(dark='white', light='yellow'), 'white', 'yellow'), (dict(dark='gray', light=None), 'gray', None)],
+    'ppm': [({}, '#000', '#fff'), (dict(dark='red', light='tan'), 'red', 'tan'), (dict(dark='white', light='black'), 'white', 'black'),
+            (dict(light='#eee'), '#000', '#eee'), (dict(dark='#333', light='yellow'), '#333', 'yellow')],
     'xbm': [({}, '#000', '#fff'), (dict(name='qr_code'), '#000', '#fff')],
-    'xpm': [({}, '#000', '#fff'), (dict(dark='red', light=None), 'red', None), (dict(dark=None), None, '#fff'),
+    'xpm': [({}, '#000', '#fff'), (dict(dark='red', light=None), 'red', None), (dict(dark=None), None, '#fff'), (dict(light='#eee'), '#000', '#eee'),
             (dict(dark='#fff', light='#000', name='x'), '#fff', '#000')],
 }
 READ = {'png': R.read_png, 'pbm': R.read_pbm, 'pam': R.read_pam, 'ppm': R.read_ppm}
@@ -67,7 +73,7 @@ def gen_cases(tier):
     vers = QUICK_VERS if tier == 'quick' else T.ORDER
     for v in vers:
         for kind in COLORS:
-            yield ('fmt', v, kind)
+            yield ('fmt', v, kind, tier)
         yield ('text', v)
     yield ('alias',)
 
@@ -269,11 +275,16 @@ def run_case(case, acc):
     if kind == 'alias':
         return alias_case(acc)
     if kind == 'fmt':
-        _, v, fmt = case
+        v, fmt = case[1], case[2]
         size = T.size_of(v)
-        for kw, dark, light in COLORS[fmt]:
+        quick = len(case) > 3 and case[3] == 'quick'
+        for ci, (kw, dark, light) in enumerate(COLORS[fmt]):
             for scale in (1, 2, 3, 2.5, 0.5, 4, 8):
                 for border in (None, 0, 1, 3):
+                    # geometry x colour: the first colour variants of each format with every (scale, border); the rest of the colour
+                    # alphabet at two scales and two borders (quick) - the thorough tier runs the complete product
+                    if quick and ci >= 4 and not (scale in (1, 3) and border in (None, 1)):
+                        continue
                     if size > 60 and scale == 3 and border is not None:
                         continue
                     if scale in (4, 8) and (size > 25 or border not in (None, 1)):
